@@ -22,12 +22,11 @@ SaCall(ev) ==
   /\ CASE ev.op = "pack"   -> Pack(ev.list) = ev.blob
        [] ev.op = "count"  -> Count(ev.blob) = ev.count
        [] ev.op = "unpack" ->
-            LET u == Unpack(ev.blob) IN
+            LET want == UnpackResult(ev.blob, ev.req, ev.withdest) IN
             /\ Len(ev.res) = ev.req
             /\ \A i \in 1..ev.req :
-                 IF i <= Len(u) THEN /\ ev.res[i].touched = 1 /\ ev.res[i].len = Len(u[i])
-                                     /\ ev.res[i].bytes = (IF ev.withdest[i] = 1 THEN u[i] ELSE << >>)
-                                ELSE ev.res[i].touched = 0
+                 /\ ev.res[i].touched = want[i].touched
+                 /\ (want[i].touched = 1 => (ev.res[i].len = want[i].len /\ ev.res[i].bytes = want[i].bytes))
   /\ step' = [op |-> ev.op] /\ UNCHANGED <<mem, hb>>
 TNext == l <= Len(Tr) /\ l' = l + 1 /\ (VssCall(Tr[l]) \/ SaCall(Tr[l])) /\ UNCHANGED out
 TSpec == TInit /\ [][TNext]_tvars
